@@ -47,6 +47,7 @@ def main():
             cmd += ["--mods", ",".join(mods)]
         if runs:
             cmd += ["--runs", runs]
+        cmd += ["--also", "C12,C13,C11"]
         print("RUN", " ".join(cmd[:6]), flush=True)
         p = subprocess.run(cmd, stdout=subprocess.PIPE, stderr=subprocess.STDOUT, text=True)
         tail = [l for l in p.stdout.splitlines() if l.startswith("KEPT") or l.startswith("NOT KEPT") or "does not" in l or "fail" in l.lower()][-4:]
